@@ -106,6 +106,16 @@ let handle line =
   | "archset" :: [k; v] -> do_op (ArchSet (zi k, zi v))
   (* stand-alone klepto.archives.cache *)
   | "c.init" :: ws -> cst := { mem = []; arch = parse_arch ws; swp = ANull }; print_string "ok\n"
+  | "c.state" :: _ ->
+      let body = String.sub line 7 (String.length line - 7) in
+      List.iter (fun part ->
+        match words part with
+        | "mem" :: ws -> cst := { mem = pairs ws; arch = !cst.arch; swp = !cst.swp }
+        | "arch" :: ws -> cst := { mem = !cst.mem; arch = parse_arch ws; swp = !cst.swp }
+        | "swp" :: ws -> cst := { mem = !cst.mem; arch = !cst.arch; swp = parse_arch ws }
+        | [] -> ()
+        | w :: _ -> failwith ("c.state: unknown field " ^ w)) (String.split_on_char ';' body);
+      print_string "ok\n"
   | "c.set" :: [k; v] -> do_cop (CSet (zi k, zi v))
   | "c.del" :: [k] -> do_cop (CDel (zi k))
   | "c.pop" :: [k] -> do_cop (CPop (zi k))
